@@ -212,6 +212,26 @@ pub fn run(ctx: &mut Ctx) -> Report {
 				cases.push(c);
 			}
 		}
+		// D2b: the same windows given in non-UTC offsets: the instant bounds validity, not the wall clock
+		let windows2: Vec<(&str, i32, i32)> = if depth2 { vec![("root", 2020, 2040), ("inter", 2021, 2039), ("leaf", 2022, 2038)] } else { vec![("root", 2020, 2040), ("leaf", 2022, 2038)] };
+		for (pos, nb, na) in windows2 {
+			for off in [5 * 3600, -8 * 3600, 13 * 3600 + 1800] {
+				let dnb = Dt { off, ..Dt::ymd(nb, 1, 1) };
+				let dna = Dt { off: -off, ..Dt::ymd(na, 1, 1) };
+				let (tnb, tna) = (dnb.real().unwrap().unix_timestamp(), dna.real().unwrap().unix_timestamp());
+				for (name, t) in [("before", tnb - 60), ("just-inside-start", tnb + 60), ("just-inside-end", tna - 60), ("after", tna + 60)] {
+					let mut c = b.clone();
+					c.tag = format!("time-offset:{}:{}:{}", pos, off, name);
+					match pos {
+						"root" => { c.root.nb = dnb; c.root.na = dna; },
+						"inter" => { let i = c.inter.as_mut().unwrap(); i.nb = dnb; i.na = dna; },
+						_ => { c.leaf.nb = dnb; c.leaf.na = dna; },
+					}
+					c.t = t;
+					cases.push(c);
+				}
+			}
+		}
 		// D3: name constraints
 		let constraints: Vec<(&str, Option<(Vec<Subtree>, Vec<Subtree>)>)> = vec![
 			("permit-dns", Some((vec![Subtree::Dns("example.com".into())], vec![]))),
@@ -281,7 +301,7 @@ pub fn run(ctx: &mut Ctx) -> Report {
 			}
 		}
 	}
-	s.rep.exhaustive.push("per-dimension sweeps around the valid baseline at depth 1 and 2: 5 CA-flag variants per CA position; 5 times per certificate window; 11 name-constraint shapes x 11 leaf name sets per CA position; 6 EKU sets x 2 purposes; 7 CA key-usage sets per CA position".into());
+	s.rep.exhaustive.push("per-dimension sweeps around the valid baseline at depth 1 and 2: 5 CA-flag variants per CA position; 5 times per certificate window, and 4 times x 3 non-UTC offsets per window; 11 name-constraint shapes x 11 leaf name sets per CA position; 6 EKU sets x 2 purposes; 7 CA key-usage sets per CA position".into());
 	// random combinations of two dimensions
 	let n = if s.ctx.thorough { 1500 } else { 60 };
 	let pool: Vec<ChainCase> = cases.clone();
